@@ -58,6 +58,7 @@ ASSUMPTIONS = [
     "process-level state = what serlib.process_state() lists (the metaclass tables and counters, the dispatch tables, the caps, "
     "per class: type_id, _fields, annotations, class-level field defaults, enum member tables); other module globals are not watched",
 ]
+USES_GENERATED_SER = True
 TRUSTED = [
     "Flocq 4.1 (binary_normalize, bits_of_b32) for struct.pack('>f'): theorems about flocq_fc inherit the "
     "axioms printed by Print Assumptions",
@@ -323,6 +324,60 @@ def impl_encode(v):
     return SL.impl_encode(v)
 
 
+def generated_kernels(run, ints):
+    """units gen_ser_*: the definitions REGENERATED from serializable.py by tools/py2v_bytes.py against the real
+    serialize_int / serialize_bool / serialize_null / serialize_bytes, the two limits, the deserialize_types table
+    (every entry probed behaviourally) and struct.unpack for the integer formats"""
+    import io, struct
+    from mpgameserver import serializable as S
+    M, r = run.model, run.rng
+
+    def wr(f, v):
+        def go():
+            s = io.BytesIO()
+            f(s, v)
+            return s.getvalue()
+        return lib.guarded(go)
+    run.compare("gen_ser_int", ints, [wr(S.serialize_int, z) for z in ints], M.call_many("gen_ser_int", [[z] for z in ints]))
+    blens = [0, 1, 2, 126, 127, 128, 129, 255, 256, 32766, 32767, 32768, 32769, 70000] + [r.randrange(0, 400) for _ in range(60)]
+    blens += [2 ** 20 - 1, 2 ** 20, 2 ** 20 + 1]
+    mc = [[r.choice([0, 1, 1, 2, -1, 256]), r.choice([0, 1, -5, 2 ** 70]), bytes(r.getrandbits(8) for _ in range(n)) if n < 1000
+           else bytes([r.getrandbits(8)]) * n] for n in blens]
+    mi = [[wr(S.serialize_bool, c[0]), wr(S.serialize_null, c[1]), wr(S.serialize_bytes, c[2])] for c in mc]
+    run.compare("gen_ser_misc", [[c[0], c[1], len(c[2])] for c in mc], mi, M.call_many("gen_ser_misc", mc))
+
+    class Probe:
+        def __init__(self):
+            self.n = []
+
+        def read(self, n):
+            self.n.append(n)
+            return b"\xff" * n
+    names = {"deserialize_string": 1, "deserialize_bytes": 2, "deserialize_map": 3, "deserialize_seq": 4, "deserialize_set": 5}
+    tab = []
+    for tid, f in S.deserialize_types.items():
+        if getattr(f, "__name__", "") in names:
+            tab.append([tid, [2, names[f.__name__]]])
+            continue
+        p = Probe()
+        v = f(p)
+        if not p.n:
+            tab.append([tid, [1]] if v is None else [tid, [9]])
+            continue
+        n = p.n[0]
+        kind = 1 if v is True else (2 if isinstance(v, float) and n == 4 else (3 if isinstance(v, float) else 0))
+        tab.append([tid, [0, n, int(kind == 0 and v == -1), kind, n] if len(p.n) == 1 else [9]])
+    run.compare("gen_ser_consts", [[]], [[S.MAX_BYTES_LENGTH, S.MAX_ARRAY_LENGTH, tab]], M.call_many("gen_ser_consts", [[]]))
+    uc = []
+    for code, ch in enumerate("BbHhLlQq?"):
+        sz = struct.calcsize(">" + ch)
+        for _ in range(120 if run.thorough() else 30):
+            uc.append([code, bytes(r.choice([0, 0x7f, 0x80, 0xff, r.getrandbits(8)]) for _ in range(sz))])
+        uc.append([code, bytes(sz + 1)]); uc.append([code, bytes(max(0, sz - 1))])
+    ui = [lib.guarded(lambda: int(struct.unpack(">" + "BbHhLlQq?"[c[0]], c[1])[0])) for c in uc]
+    run.compare("gen_ser_unpack", uc, ui, M.call_many("gen_ser_unpack", uc))
+
+
 def impl_trip(v, reg, rest=b""):
     """encode then decode on the implementation: ([0,[shape, left]] | [1,code]) ; None when encode fails"""
     e = impl_encode(v)
@@ -470,6 +525,7 @@ def run(run):
         ints += list(range(-70000, 70001)) + [s * (2 ** k) + d for k in (31, 32, 63, 64) for s in (1, -1) for d in range(-300, 301)]
         run.exhaustive.append("serialize_int: every integer in [-70000, 70000] and +-300 around 2^31, 2^32, 2^63, 2^64")
     run.compare("ser_int", ints, [impl_encode(z) for z in ints], M.call_many("ser_int", [[z] for z in ints]))
+    generated_kernels(run, ints)
 
     ucases = utf8_cases(run)
     ui = []
